@@ -347,7 +347,7 @@ pub fn apply_event(w: &Shared, ev: &str) -> bool {
         }
         Some(x) if x.starts_with('R') => num(&x[1..]).map(|c| g.push(id, Ev::Reset(c))).is_some(),
         Some(x) if x.starts_with('S') => num(&x[1..]).map(|c| g.peer_stop(id, c)).is_some(),
-        Some(x) if x.starts_with('Z') => num(&x[1..]).map(|n| g.stream(id).finish_pending = n).is_some(),
+        Some(x) if x.starts_with('Z') => num(&x[1..]).map(|n| g.stream(id).finish_pending += n).is_some(),
         _ => false,
     }
 }
